@@ -477,6 +477,8 @@ var verifNonsense = []verifCLICase{
 	{0, "C[1]{mtr=0/4}", nil}, {0, "C[1]{mtr=3/0}", nil}, {0, "C[1]{key=Abm}", nil}, {0, "C[1] 4[1]", nil}, {0, "C/4[1]", nil}, {0, "", nil}, {0, "C[1", nil},
 	{0, "R[1]{bpm=0}", nil}, {0, "C[1]", []string{"--key", "Abm"}}, {0, "C[1]", []string{"--key", "H"}},
 	{1, "1[0]", nil}, {1, "1[1]{vel=loud}", nil}, {1, "1/C[1]", nil}, {1, "0[1]", nil}, {1, "", nil},
+	// a key crd has no scale for, in degree notation too (what text conv prints must be playable)
+	{1, "1[1]{key=Abm}", nil}, {1, "R[1]{key=G#}", nil}, {0, "R[1]{key=G#}", nil},
 	{2, "- values: []\n", nil}, {2, "- chord:\n    degree: \"1\"\n    name: nosuch\n  values: [\"1\"]\n", nil}, {2, "- values: [\"1\"]\n  bpm: 0\n", nil},
 	{2, "- values: [\"1\"]\n  velocity: xx\n", nil}, {2, "- values: [\"1\"]\n  key: Abm\n", nil}, {2, "- values: [\"1\"]\n  meter: 0/4\n", nil},
 	{2, "[]\n", nil}, {2, "", nil}, {2, "- values: [\"0\"]\n", nil}, {2, "- values: [\"1/0\"]\n", nil}, {2, "- chord:\n    degree: \"0\"\n    name: \"\"\n  values: [\"1\"]\n", nil},
